@@ -229,6 +229,9 @@ func ruleC03_2(c *Ctx) {
 			}
 		}
 		nRet++
+		if !own["field:RawQuery"] && !own["method:Query"] {
+			badRet = append(badRet, fmt.Sprintf("%s: this return's key does not depend on the query (depends on %v); the query is sent to the origin on this path too (URL.RequestURI appends it to an opaque target)", c.P.InstrPos(r), sortedKeys(own)))
+		}
 		if !noAuthority {
 			hasScheme := own["field:Scheme"]
 			hasHost := own["field:Host"] || own["method:Hostname"]
